@@ -154,20 +154,28 @@ func runC01(c *Case) {
 		wi := r.Intn(len(w.ws))
 		s := HStmt{W: wi, Key: 1 + r.Intn(nkeys), T: 10 + times[i]}
 		tag := fmt.Sprintf("t:w%ds%d", wi, i)
+		// one value in five is one of two common values: concurrent versions then hold the same
+		// value for a column with different assignment times
+		val := func(sfx string) string {
+			if r.Intn(5) == 0 {
+				return []string{"t:x", "t:y"}[r.Intn(2)]
+			}
+			return tag + sfx
+		}
 		switch x := r.Intn(100); {
 		case x < 38:
 			s.Kind = "ins"
 			s.Cols = map[string]string{}
 			for _, col := range hcols {
 				if r.Intn(4) != 0 {
-					s.Cols[col] = tag + col
+					s.Cols[col] = val(col)
 				}
 			}
 		case x < 72:
 			s.Kind = "upd"
-			s.Cols = map[string]string{hcols[r.Intn(3)]: tag}
+			s.Cols = map[string]string{hcols[r.Intn(3)]: val("")}
 			if r.Bool() {
-				s.Cols[hcols[r.Intn(3)]] = tag + "x"
+				s.Cols[hcols[r.Intn(3)]] = val("x")
 			}
 		default:
 			s.Kind = "del"
